@@ -147,9 +147,18 @@ func (db *DB) Compact() (CompactionResult, error) {
 		db.maintenanceMu.Unlock()
 	}()
 
-	db.mu.RLock()
+	// Pick the segments and seal them in the same critical section.
+	// A delete record appended to a picked segment after the decision was made would be dropped
+	// together with the segment while an older segment still holds a put record for the key.
+	db.mu.Lock()
 	segments := db.pickForCompaction()
-	db.mu.RUnlock()
+	for _, seg := range segments {
+		if err := db.datalog.sealSegment(seg); err != nil {
+			db.mu.Unlock()
+			return cr, err
+		}
+	}
+	db.mu.Unlock()
 
 	for _, seg := range segments {
 		segcr, err := db.compact(seg)
